@@ -130,6 +130,72 @@ def rule_r1(chk, prog, cg, zone):
                           'the containment handler re-raises or exits',
                           loc=m.loc(h), nontrivial=True)
 
+    # a failure of one mutator must not cost the other mutators' candidates:
+    # the handler of a try that sits directly in the loop over the mutators
+    # does not leave that loop
+    nloop = 0
+    for modname in ('strategy_ddmin', 'strategy_hierarchical'):
+        m = prog.mod(modname)
+        for t in ast.walk(m.tree):
+            if not isinstance(t, ast.Try):
+                continue
+            hs = [h for h in t.handlers if catches_all(h)]
+            if not hs:
+                continue
+            recvs = set()
+            for b in t.body:
+                for c in ast.walk(b):
+                    if isinstance(c, ast.Call) and isinstance(
+                            c.func, ast.Attribute) and c.func.attr in \
+                            PROTOCOL and isinstance(c.func.value, ast.Name):
+                        recvs.add(c.func.value.id)
+            if not recvs:
+                continue
+            # innermost loop around the try
+            p = getattr(t, '_parent', None)
+            inner = None
+            while p is not None and not isinstance(
+                    p, (ast.FunctionDef, ast.Lambda)):
+                if isinstance(p, (ast.For, ast.While)):
+                    inner = p
+                    break
+                p = getattr(p, '_parent', None)
+            if inner is None or not isinstance(inner, ast.For):
+                continue
+            tnames = {x.id for x in ast.walk(inner.target)
+                      if isinstance(x, ast.Name)}
+            if not (tnames & recvs):
+                continue
+            nloop += 1
+            f = _fn(t)
+            for h in hs:
+                leaves = []
+
+                def scan(nodes, in_loop):
+                    for x in nodes:
+                        if isinstance(x, (ast.FunctionDef, ast.Lambda)):
+                            continue
+                        if isinstance(x, ast.Return):
+                            leaves.append(x)
+                        if isinstance(x, ast.Break) and not in_loop:
+                            leaves.append(x)
+                        scan(list(ast.iter_child_nodes(x)), in_loop
+                             or isinstance(x, (ast.For, ast.While)))
+
+                scan(h.body, False)
+                chk.check('C04.R1', f'{modname}.{f._qualname}',
+                          f'handler in the loop over {sorted(tnames & recvs)}'
+                          ' continues with the next mutator', not leaves,
+                          'the handler that contains a failing mutator '
+                          f'leaves the loop over the mutators ('
+                          f'{", ".join(unparse(x) for x in leaves)}): one '
+                          'failing mutator costs the candidates of all the '
+                          'mutators after it', loc=m.loc(leaves[0] if leaves
+                                                         else h),
+                          nontrivial=True)
+    chk.floor('C04.R1', 'per-mutator containment handlers in a loop over '
+              'the mutators', nloop, 1)
+
 
 # --------------------------------------------------------------------- R2
 NODE_PARAM_NAMES = {'node', 'cmd', 'expr', 'sort', 'term', 'n', 'e',
@@ -228,7 +294,7 @@ def rule_r2(chk, prog, cg, zone):
              'are not dereferenced; pop() on the parser stack needs a '
              'non-empty test; int()/float() need a lexical test')
     summ = Summaries(prog)
-    nsub = nobl = 0
+    nsub = nobl = nvar = 0
     zone_funcs = sorted(z for z in zone if z[0] in ZONE_MODULES or (
         z[0].startswith('mutators_') and z[1] == 'is_relevant'))
     chk.floor('C04.R2', 'functions in the main-unguarded zone',
@@ -279,6 +345,26 @@ def rule_r2(chk, prog, cg, zone):
                       loc=m.loc(s), nontrivial=True,
                       argument=f'minlen({x}) from must-facts + predicate '
                       'summaries')
+        # ---- (a') variable subscripts on s-expressions
+        for s in walk_no_nested(f):
+            if not (isinstance(s, ast.Subscript) and isinstance(
+                    s.ctx, ast.Load) and isinstance(s.slice, ast.Name)):
+                continue
+            recv = s.value
+            base = recv.value if isinstance(
+                recv, ast.Attribute) and recv.attr == 'data' else recv
+            if not ty.is_node_expr(base):
+                continue
+            nvar += 1
+            nobl += 1
+            ok, why = _index_bounded(f, s, s.slice.id, unparse(base))
+            chk.check('C04.R2', where, f'{unparse(s)} (variable index)', ok,
+                      f'"{unparse(s)}" is evaluated in the main process but '
+                      f'nothing bounds "{s.slice.id}" by len({unparse(base)})'
+                      f' ({why}): on an s-expression with fewer children '
+                      'than expected this is an IndexError traceback that '
+                      'ends the run', loc=m.loc(s), nontrivial=True,
+                      argument=why)
         # ---- (e) get_ident needs has_ident
         for c in walk_no_nested(f):
             if isinstance(c, ast.Call) and isinstance(
@@ -381,7 +467,53 @@ def rule_r2(chk, prog, cg, zone):
                           'dominating test', loc=m.loc(st), nontrivial=True)
     chk.floor('C04.R2', 'constant subscripts on s-expressions in the zone',
               nsub, 20)
+    chk.floor('C04.R2', 'variable subscripts on s-expressions in the zone',
+              nvar, 1)
     chk.extra['zone_obligations'] = nobl
+
+
+def _index_bounded(f, sub, idx, base):
+    """idx < len(base) at ``sub``: from a dominating comparison or because
+    idx ranges over range(len(base)) / enumerate(base)."""
+    from ..shape import parse_expr
+    ln = f'len({base})'
+    lnd = f'len({base}.data)'
+    for (t, pol) in facts_at(f, sub):
+        e = parse_expr(t)
+        if not (isinstance(e, ast.Compare) and len(e.ops) == 1):
+            continue
+        l, r, op = unparse(e.left), unparse(e.comparators[0]), e.ops[0]
+        if l == idx and r in (ln, lnd):
+            if pol and isinstance(op, ast.Lt) or \
+                    not pol and isinstance(op, ast.GtE):
+                return True, f'dominating test {"" if pol else "not "}{t}'
+        if r == idx and l in (ln, lnd):
+            if pol and isinstance(op, ast.Gt) or \
+                    not pol and isinstance(op, ast.LtE):
+                return True, f'dominating test {"" if pol else "not "}{t}'
+    p = getattr(sub, '_parent', None)
+    while p is not None and not isinstance(p, ast.FunctionDef):
+        its = []
+        if isinstance(p, ast.For):
+            its = [(p.target, p.iter)]
+        elif isinstance(p, (ast.ListComp, ast.GeneratorExp, ast.SetComp,
+                            ast.DictComp)):
+            its = [(g.target, g.iter) for g in p.generators]
+        for tg, it in its:
+            if isinstance(tg, ast.Name) and tg.id == idx and isinstance(
+                    it, ast.Call) and call_name(it) == 'range' and it.args \
+                    and unparse(it.args[-1 if len(it.args) < 3 else 1]) in (
+                        ln, lnd):
+                return True, f'{idx} ranges over {unparse(it)}'
+            if isinstance(tg, ast.Tuple) and tg.elts and isinstance(
+                    tg.elts[0], ast.Name) and tg.elts[0].id == idx and \
+                    isinstance(it, ast.Call) and call_name(
+                        it) == 'enumerate' and it.args and unparse(
+                            it.args[0]) in (base, f'{base}.data'):
+                return True, f'{idx} enumerates {base}'
+        p = getattr(p, '_parent', None)
+    return False, 'no dominating comparison with the length, no range/' \
+        'enumerate over the same expression'
 
 
 def _iter_elem_nonempty(s, base):
@@ -698,15 +830,15 @@ def run(tier):
     if cg.resolved < 1200:
         raise AnalysisError(
             f'call graph resolved only {cg.resolved} call sites')
-    rule_r1(chk, prog, cg, zone)
-    rule_r2(chk, prog, cg, zone)
-    rule_r3(chk, prog)
-    rule_r4(chk, prog)
-    rule_r5(chk, prog)
+    chk.guard(rule_r1, chk, prog, cg, zone)
+    chk.guard(rule_r2, chk, prog, cg, zone)
+    chk.guard(rule_r3, chk, prog)
+    chk.guard(rule_r4, chk, prog)
+    chk.guard(rule_r5, chk, prog)
     # an interrupt must reach main()'s handler (status 1): shared with C06.R3
     from . import c06
     sub = Check('C06', 'other', tier, [], [])
-    c06.rule_r3(sub, prog)
+    chk.guard(c06.rule_r3, sub, prog)
     chk.rule('C04.R6', 'an interrupt reaches main()\'s KeyboardInterrupt '
              'handler: no handler below swallows it (shared with C06.R3)')
     for r in sub.instances:
